@@ -2,6 +2,7 @@ import Falcon.Props.C11
 import Falcon.Lemmas.BabaiAlg
 import Falcon.Lemmas.TowerAlg
 import Falcon.Lemmas.Karatsuba
+import Falcon.Lemmas.KeygenSound
 import Falcon.Model.KeygenSkel
 
 /-!
@@ -144,6 +145,27 @@ theorem ntru_solve_exact (ks : Nat → List Int → List Int → List (List Int)
   RingZ.ntruSolve_exact ks d f g cF cG hf hg hs
 
 example : RingZ.kmul 2 [1, 2] [3, 4] = [-5, 10] ∧ RingZ.negacyc 2 [1, 2] [3, 4] = [-5, 10] := by decide
+
+/-- **the executable model of `ntru_solve`** (`Keygen.ntruSolveBig`: the recursion with `field_norm`, the lifting step
+    through Karatsuba, `babai_reduce_bigint` with its floating-point quotients and the extended gcd — the model whose
+    whole key generation reproduces the real one bit for bit on every compared seed) **returns only solutions of the NTRU
+    equation**: for every depth and every f, g of length 2^d, whatever the floating-point arithmetic inside the Babai
+    reduction computes, a returned pair has the right lengths and f⋆G − g⋆F = (q, 0, …, 0) in ℤ[X]/(Xⁿ+1) -/
+theorem model_ntru_solve_sound (d : Nat) (f g cF cG : List Int) (hf : f.length = 2 ^ d) (hg : g.length = 2 ^ d)
+    (hs : Keygen.ntruSolveBig d f g = some (cF, cG)) :
+    cF.length = 2 ^ d ∧ cG.length = 2 ^ d ∧
+    RingZ.ntruLhs (2 ^ d) f g cF cG = (12289 : Int) :: List.replicate (2 ^ d - 1) 0 := by
+  obtain ⟨l1, l2, _⟩ := Keygen.ntruSolveBig_sound (R := Int) d f g cF cG hf hg hs
+  exact ⟨l1, l2, Keygen.ntruSolveBig_exact d f g cF cG hf hg hs⟩
+
+/-- and `babai_reduce_bigint` as modelled (floating-point quotients included) leaves f⋆G − g⋆F unchanged at every root
+    of Xⁿ+1 in every commutative ring, for every input pair -/
+theorem model_babai_reduce_preserves_ntru {R : Type} [CommRing R] (j : Nat) (f g cF cG : List Int)
+    (hf : f.length = 2 ^ j) (hg : g.length = 2 ^ j) (h1 : cF.length = 2 ^ j) (h2 : cG.length = 2 ^ j) (ρ : R)
+    (hρ : ρ ^ (2 ^ j) = -1) :
+    RingZ.ev f ρ * RingZ.ev (Keygen.babaiBig f g cF cG).2.2 ρ - RingZ.ev g ρ * RingZ.ev (Keygen.babaiBig f g cF cG).2.1 ρ =
+      RingZ.ev f ρ * RingZ.ev cG ρ - RingZ.ev g ρ * RingZ.ev cF ρ :=
+  (Keygen.babaiBig_inv (R := R) j f g cF cG hf hg h1 h2).2.2 ρ hρ
 
 /-- non-vacuity: the model of NTRUSolve on (f, g) = (1 + X, 3 + 2X) (n = 2; N f = 2, N g = 13, −6·2 + 1·13 = 1, no Babai
     rounds) returns a pair that solves the equation over ℤ -/
